@@ -222,6 +222,9 @@ class Check:
         self._distinct = set()
         self.known = [k for k in load_known() if k.get("property") == pid and k.get("status", "open") == "open"]
         self.notes = {}
+        import glob
+        for f in glob.glob(os.path.join(VERIF, "replays", "%s-*.json" % pid)):
+            os.remove(f)
 
     # ---- coverage bookkeeping
     def add_tlc(self, r, label=None):
